@@ -124,9 +124,11 @@ PROPS = {
             'because of the bounded part. Verus further proves the field-list algebra behind "$@" inside a word '
             '(yash-semantics/src/expansion/phrase.rs Phrase::append, add_assign, field_count, is_zero_fields, zero_fields, '
             'one_empty_field): a phrase denotes a list of fields, appending joins the last field of the left list with the first '
-            'field of the right list and an empty list is the unit, in all nine representation cases, with `other` left empty. '
-            'Not decided here: the remaining parameter-expansion modifiers (trim, length), nounset, $* joining with the first IFS '
-            'character (Phrase::ifs_join), quote removal, the read built-in, the lexer -- all of which run through async code over '
+            'field of the right list and an empty list is the unit, in all nine representation cases, with `other` left empty; and '
+            'that Phrase::ifs_join ($*) yields the fields in order with the separator between every two of them and none at the ends '
+            '(which character the separator is - the first of IFS, a space when IFS is unset, nothing when it is empty - is computed by '
+            'string code outside Verus\'s reach and ASSUMED). Not decided here: the remaining parameter-expansion modifiers (trim, '
+            'length), nounset, quote removal, the read built-in, the lexer -- all of which run through async code over '
             'Env or through string iteration outside the verifier\'s subset; a change there is not seen by this check.'),
         'trusted_base': ['Verus 0.2026.09.13 + Z3', 'vstd iterator model (IteratorSpec: prophetic remaining())', '/verif/tools/vextract.py'],
         'assumptions': [
@@ -135,10 +137,11 @@ PROPS = {
             'Iterator::next for Ranges is checked as an inherent method with the same body (impl header replaced)',
             'the reference splitter (contracts/v/split/prelude.rs) is the reading of XCU 2.6.5 the contract is stated against',
             'Phrase::append: `left.extend(right.drain(1..))` is checked as a call of a helper with that body and an assumed contract (rewrite rule tokens-to-helper); mem::replace has an assumed contract',
+            'Phrase::ifs_join: the separator computation and the reserve_exact call are helper calls with assumed contracts; Vec::extend(Vec) appends the elements; VariableSet is a placeholder; a ghost entry snapshot and a proof block at the end of the loop body are spliced',
         ],
     },
     'C04': {
-        'v_units': ['fnparse', 'fnregex'],
+        'v_units': ['fnparse', 'fnregex', 'attrfn'],
         'k_units': ['fnmatch'],
         'level': 'other',
         'explanation': (
@@ -152,7 +155,10 @@ PROPS = {
             'Bracket::parse, make_range) returns, for every sequence of pattern characters, exactly what a reference parser written '
             'from XCU 2.13.1 / XBD 9.3.5 returns: ? * [ special only when unquoted, ] closes a bracket unless first, leading ! or ^ '
             'complements, member - member is a range only around an UNQUOTED hyphen (finding F2, fixed), an unclosed [ is a literal '
-            'character, quoted characters are plain members (inner [. .] [= =] [: :] expressions assumed). '
+            'character, quoted characters are plain members (inner [. .] [= =] [: :] expressions assumed). Verus also proves that '
+            'apply_escapes (yash-semantics/src/expansion/attr_fnmatch.rs), which turns backslashes in the result of an expansion into '
+            'quoting before a pattern is built, is the left-to-right scan in which an unquoted backslash that is not itself escaped '
+            'quotes the next character and becomes a quoting character, touching nothing else. '
             'Kani checks the same per-character contract by concrete execution over every ASCII character for the emitters whose '
             'bodies Verus cannot take (BracketAtom::fmt_regex / fmt_regex_single with one-character collating symbols and '
             'equivalence classes), and that an unclosed [ is literal. NOT checked: BracketAtom::parse_inner (builds Strings), '
